@@ -1,42 +1,86 @@
 #!/bin/bash
-# Demonstrates detection: for each patch (mutants/*.patch or seeded/*/patch.diff) apply it to /repo,
-# optionally run the repository's own suite with the guard off (must still pass), run the property's
-# check(s) and require exit 1 + a VIOLATION line, then revert. Not part of the registered commands.
-#   ./selftest_mutants.sh [--with-baseline] [--tier quick|thorough] [--all-checks] [name-filter]
+# Demonstrates detection: for each patch (mutants/*.patch and seeded/*/patch.diff) apply it to a copy of
+# the repository, optionally run the repository's own suite with the guard off (must still pass), run
+# the property's check(s) and require exit 1 + a VIOLATION line, then revert.
+# Not part of the registered commands.
+#
+#   ./selftest_mutants.sh [--in-place] [--with-baseline] [--tier quick|thorough] [--all-checks]
+#                         [--shard i/n] [--out file] [name-filter]
+#
+# Default mode is ISOLATED: a scratch git worktree of /repo's HEAD and a copy of /verif's harness are
+# created under $ISO (default /tmp/verif-iso-<shard>), the harness's path dependencies are pointed at
+# the scratch repository, and VERIF_ROOT makes pcheck read/write inside the copy - so /repo and /verif
+# stay untouched and usable while this runs. Under `vp run --with-repo` the provided snapshots are used.
+# --in-place applies the patches to /repo itself and uses ./check (what a user of MANIFEST.json does).
 set -u
-BASELINE=0; TIER=quick; FILTER=""; ALLCHK=0
-while [ $# -gt 0 ]; do case "$1" in --with-baseline) BASELINE=1;; --tier) TIER="$2"; shift;; --all-checks) ALLCHK=1;; *) FILTER="$1";; esac; shift; done
-cd /verif
-if [ -n "$(git -C /repo status --porcelain --untracked-files=no)" ]; then echo "/repo is not clean"; exit 2; fi
-trap 'git -C /repo checkout -- . 2>/dev/null' EXIT INT TERM
-RES=/verif/mutants/results.tsv
-: > "$RES.tmp"
+BASELINE=0; TIER=quick; FILTER=""; ALLCHK=0; INPLACE=0; SHARD="0/1"; OUT=""
+while [ $# -gt 0 ]; do case "$1" in
+  --with-baseline) BASELINE=1;; --tier) TIER="$2"; shift;; --all-checks) ALLCHK=1;; --in-place) INPLACE=1;;
+  --shard) SHARD="$2"; shift;; --out) OUT="$2"; shift;; *) FILTER="$1";; esac; shift; done
+SI=${SHARD%/*}; SN=${SHARD#*/}
+SRC=/verif
+[ -n "${VP_RUN_REPO:-}" ] && SRC="$PWD"
+OUT=${OUT:-$SRC/mutants/results-$SI-of-$SN.tsv}
+
+if [ $INPLACE -eq 1 ]; then
+  REPO=/repo; ROOT=/verif
+  if [ -n "$(git -C /repo status --porcelain --untracked-files=no)" ]; then echo "/repo is not clean"; exit 2; fi
+  runcheck() { (cd /verif && ./check "$1" "$TIER"); }
+  cleanup() { git -C /repo checkout -- . 2>/dev/null; }
+else
+  ISO=${ISO:-/tmp/verif-iso-$SI}
+  rm -rf "$ISO/verif"; mkdir -p "$ISO/verif"
+  if [ -n "${VP_RUN_REPO:-}" ]; then REPO="$VP_RUN_REPO"; else
+    REPO="$ISO/repo"; git -C /repo worktree remove --force "$REPO" 2>/dev/null; rm -rf "$REPO"
+    git -C /repo worktree add --detach "$REPO" HEAD >/dev/null 2>&1 || { echo "cannot create worktree"; exit 2; }
+  fi
+  ROOT="$ISO/verif"
+  (cd "$SRC" && tar cf - --exclude=./target --exclude=./.git --exclude=./evidence --exclude=./replays .) | (cd "$ROOT" && tar xf -)
+  sed -i "s#/repo/source#$REPO/source#g" "$ROOT/harness/pcheck/Cargo.toml"
+  sed -i "s#target-dir = .*#target-dir = \"$ISO/target\"#" "$ROOT/harness/.cargo/config.toml"
+  if [ ! -d "$ISO/target" ] && [ -d /verif/target/release ]; then mkdir -p "$ISO/target"; cp -a /verif/target/release "$ISO/target/" 2>/dev/null; fi
+  export VERIF_ROOT="$ROOT" CARGO_NET_OFFLINE=true
+  mkdir -p "$ROOT/evidence" "$ROOT/replays"
+  runcheck() {
+    (cd "$ROOT/harness" && cargo build --release --offline -p pcheck >"$ISO/build.log" 2>&1) || { echo "MACHINERY: build failed"; grep -E "^error" -A6 "$ISO/build.log" | head -20; return 2; }
+    (cd "$ROOT" && "$ISO/target/release/pcheck" "$1" --tier "$TIER")
+  }
+  cleanup() { git -C "$REPO" checkout -- . 2>/dev/null; [ -z "${VP_RUN_REPO:-}" ] && git -C /repo worktree remove --force "$REPO" 2>/dev/null; rm -rf "$ISO"; }
+fi
+trap cleanup EXIT INT TERM
+
 list() {
-  python3 - <<'PY'
-import json,glob,os
-for m in json.load(open('/verif/mutants/index.json')):
-    print(m['name'], m['property'], f"/verif/mutants/{m['name']}.patch")
-for meta in sorted(glob.glob('/verif/seeded/*/meta.json')):
+  python3 - "$SRC" <<'PY'
+import json,glob,os,sys
+src=sys.argv[1]
+for m in json.load(open(src+'/mutants/index.json')):
+    print(m['name'], m['property'], f"{src}/mutants/{m['name']}.patch")
+for meta in sorted(glob.glob(src+'/seeded/*/meta.json')):
     d=json.load(open(meta)); dirn=os.path.dirname(meta)
     print("seeded:"+os.path.basename(dirn), d['property'], dirn+"/patch.diff")
 PY
 }
+: > "$OUT"
+n=0
 list | while read -r name prop patch; do
   case "$name" in *"$FILTER"*) ;; *) continue;; esac
-  if ! git -C /repo apply --check "$patch" 2>/dev/null; then echo -e "$name\t$prop\tPATCH-DOES-NOT-APPLY" | tee -a "$RES.tmp"; continue; fi
-  git -C /repo apply "$patch"
+  n=$((n+1)); if [ $(( (n-1) % SN )) -ne "$SI" ]; then continue; fi
+  if ! git -C "$REPO" apply --check "$patch" 2>/dev/null; then echo -e "$name\t$prop\t-\tPATCH-DOES-NOT-APPLY" | tee -a "$OUT"; continue; fi
+  git -C "$REPO" apply "$patch"
   base="-"
   if [ $BASELINE -eq 1 ]; then
-    if (cd /repo && cargo test --workspace --no-fail-fast --offline >/tmp/mut-base.log 2>&1); then base="suite-pass"; else base="SUITE-FAILS"; fi
+    if (cd "$REPO" && CARGO_TARGET_DIR="$REPO/target" cargo test --workspace --no-fail-fast --offline >/dev/null 2>&1); then base="suite-pass"; else base="SUITE-FAILS"; fi
   fi
   caught=""
   checks="$prop"; [ $ALLCHK -eq 1 ] && checks="C01 C02 C03 C04 C05 C06 C07 C08 C09 C10 C11 C12 C13 C14 C15 C16 C17 C18 C19 C20"
   for c in $checks; do
-    out=$(./check "$c" "$TIER" 2>&1); rc=$?
-    if [ $rc -eq 1 ] && echo "$out" | grep -q "^VIOLATION property=$c"; then caught="$caught $c"; 
-    elif [ $rc -eq 2 ]; then caught="$caught $c(machinery)"; fi
+    out=$(runcheck "$c" 2>&1); rc=$?
+    if [ $rc -eq 1 ] && echo "$out" | grep -q "^VIOLATION property=$c"; then
+      cls=$(echo "$out" | grep -o "class=[^ ]*" | grep -v "^class=dyn-.*arity-1\|zero-width" | head -2 | tr '\n' ',' )
+      caught="$caught $c[$cls]"
+    elif [ $rc -eq 2 ]; then caught="$caught $c(machinery)";
+    elif [ $rc -ne 0 ]; then caught="$caught $c(rc=$rc)"; fi
   done
-  git -C /repo checkout -- .
-  echo -e "$name\t$prop\t$base\tcaught-by:${caught:- NONE}" | tee -a "$RES.tmp"
+  git -C "$REPO" checkout -- .
+  echo -e "$name\t$prop\t$base\tcaught-by:${caught:- NONE}" | tee -a "$OUT"
 done
-mv "$RES.tmp" "$RES"
